@@ -2,7 +2,8 @@ from vlib.common import nt_len, NOTE, SCHED_TRUSTED
 
 _COQ = ["Common/ListLemmas.v", "Keyed/Model.v", "Keyed/Spec.v", "Keyed/Proofs.v"]
 _RULE = ("implementation-driven random gate-level histories of keyed.Keyed and keyed.KeyedRefCount over 2-3 keys (SetKey/RemoveKey/"
-         "SyncKeys with duplicates/GetKey/GetKeys, AddKeyRef/Release in two segments/KeyedRefCount.RemoveKey, Reset/Restart of one or all "
+         "SyncKeys with duplicates/GetKey/GetKeys, AddKeyRef/Release in two segments (a third one if the call is found outside rc.mtx before "
+         "Keyed.RemoveKey: gate 5, then raced against AddKeyRef of the same key)/KeyedRefCount.RemoveKey, Reset/Restart of one or all "
          "routines with conditions, SetContext/ClearContext, instances stepped through their first select, user-function returns with "
          "nil/Canceled/error, bookkeeping sections, fake-clock advances, retry and delayed-removal timer callbacks parked and run later), "
          "release delay 0 or 1000 ms, back-off none/[100]/[100,200] + corpus; distinct = distinct event sequence; non-trivial = >= 10 events")
@@ -79,7 +80,9 @@ PROPS = {
                          "failed key is removed at once; a reference-counted key is present with no removal pending while a reference is "
                          "unreleased; a second Release is a no-op. The pinned code's violations (D6, D19) are _refuted theorems and corpus "
                          "histories. Model tied to the code by scheduled differential correspondence; the reference machine itself is the monitor "
-                         "state evaluated on the implementation's observations (key set after every event, data, return values, references).",
+                         "state evaluated on the implementation's observations (key set after every event, data, return values, references); a "
+                         "schedule point before Keyed.RemoveKey takes k.mtx (parked only when rc.mtx is free, which the verified code never "
+                         "is there) exposes a Release whose removal is not atomic with its reference bookkeeping.",
                     note=NOTE + "Interpretation: a removal request for a key whose removal is already pending changes nothing, even if the key's "
                                 "routine has failed meanwhile (the code checks the pending removal first); 'failed' = the current record's recorded "
                                 "exit was an error and nothing was started since. ResetRoutine on a key pending removal silently drops the removal "
@@ -96,7 +99,10 @@ PROPS = {
                          "retry timer fires at its deadline and its callback starts a new instance. The pinned code's violations (D8, D8b, D7) are "
                          "_refuted theorems and corpus histories. Monitors on the implementation's observations: <=1 instance in user code per "
                          "incarnation, live in-user instances belong to a present key's current incarnation and only while the container has a "
-                         "context, nothing spawned for an absent key or without context, a due retry is parked or has spawned.",
+                         "context, nothing spawned for an absent key or without context, a due retry is parked or has spawned; and against the "
+                         "request-level reference key set (what the caller asked for): a key that the requests have removed - at once, or its "
+                         "release delay has run out and its removal callback is not merely parked - has no in-user instance with a live "
+                         "context (7/6) and gets no new instance (7/7).",
                     note=NOTE + "Retry liveness is stated per step (fires when due; callback restarts) and monitored on every trace; 'retried while "
                                 "wanted' holds for intervals in which the container context stays set (ClearContext cancels the obligation). A stale "
                                 "retry callback (fired before a manual restart, run after it) restarts the routine early, also after a success - "
